@@ -143,11 +143,19 @@ def check(chk):
     g = CFG(ou, may_raise=lambda n: ['Exception'] if any(isinstance(x, ast.Call) and src(x.func) in ('self._prepare_all_queries', 'session.add_or_renew_pool', 'self.profile_manager.on_up',
                                                                                                        'self.control_connection.on_up') for x in walk_no_nested(n)) else [])
 
+    # registration of the callback for every created future: a loop over (a snapshot of) `futures`, directly in the body that created them
+    registers_all = any(isinstance(lp, ast.For) and src(lp.iter) in ('tuple(futures)', 'list(futures)', 'futures') and
+                        any(isinstance(x, ast.Call) and src(x.func) == 'future.add_done_callback' for x in ast.walk(lp)) and
+                        not any(isinstance(x, (ast.If, ast.Try)) for x in lp.body) for lp in body_walk(ou))
+
     def step_f(node, c):
         if node.ast is not None and node.kind == 'stmt' and isinstance(node.ast, ast.Assign) and src(node.ast.targets[0]) == 'host._currently_handling_node_up':
             return 'set' if src(node.ast.value) == 'True' else 'reset'
         if c == 'set' and node.ast is not None and node.kind == 'stmt' and 'future.add_done_callback(callback)' in src(node.ast):
             return 'handed'      # _on_up_future_completed resets it
+        if c == 'set' and registers_all and node.ast is not None and node.kind == 'stmt' and src(node.ast) == 'have_future = True':
+            # a future was created: the registration loop over the (then non-empty) set hands the flag to the callback
+            return 'handed'
         return c
     fl = Flow(g, 'clear', step_f)
     bad = [c for n in (g.exit, g.raise_exit) for _f, c in fl.at(n) if c == 'set']
@@ -205,3 +213,18 @@ def check(chk):
         first = [st for st in f.body if not (isinstance(st, ast.Expr) and isinstance(st.value, ast.Constant))][0]
         chk.judge(isinstance(first, ast.If) and src(first.test) == 'self.is_shutdown' and isinstance(first.body[0], ast.Return), 'C25.shutdown', f,
                   '%s returns at once after shutdown' % q, '%s acts after shutdown' % q)
+
+    # the completion callback of the pool futures decides "all pools are there" by looking at the set of outstanding futures:
+    # it must not be able to run before that set is complete
+    chk.rule('C25.register', 'Cluster.on_up registers the done-callback of the pool futures only after every future is in the set it inspects; loops over that set use a snapshot')
+    ou = cl.func('Cluster.on_up')
+    creating = [lp for lp in body_walk(ou) if isinstance(lp, ast.For) and any(isinstance(c_, ast.Call) and isinstance(c_.func, ast.Attribute) and c_.func.attr == 'add_or_renew_pool' for c_ in ast.walk(lp))]
+    if not creating:
+        raise AnalysisError('Cluster.on_up: pool creation loop not found')
+    early = [c_ for lp in creating for c_ in ast.walk(lp) if isinstance(c_, ast.Call) and isinstance(c_.func, ast.Attribute) and c_.func.attr == 'add_done_callback']
+    regs = [c_ for c_ in body_walk(ou) if isinstance(c_, ast.Call) and isinstance(c_.func, ast.Attribute) and c_.func.attr == 'add_done_callback']
+    chk.judge(bool(regs) and not early, 'C25.register', ou, 'on_up: add_done_callback after the loop that fills `futures`',
+              'the callback is registered inside the loop that creates the pool futures: a future that is already done runs the callback at once, while the set of '
+              'outstanding futures is still incomplete - the host is marked up (and listeners are told) before the other sessions have their pools')
+    live_iter = [lp for lp in body_walk(ou) if isinstance(lp, ast.For) and src(lp.iter) == 'futures']
+    chk.judge(not live_iter, 'C25.register', ou, 'on_up iterates tuple(futures), never the live set', 'the live set is iterated while callbacks discard from it (RuntimeError: Set changed size during iteration)')
